@@ -96,7 +96,7 @@ def run_case(case, ctx):
 				for i, q in enumerate(order):
 					stem, ext, gz = plan['names'][i % len(plan['names'])]
 					nm = clean_name(stem, ext + ('.gz' if gz else ''), chan == 'list')
-					rel.append(os.path.join(f'sub{i}', 'deeper' if i % 2 else '', nm))
+					rel.append(nm if (i % 3 == 0 and nm not in rel) else os.path.join(f'sub{i}', 'deeper' if i % 2 else '', nm))
 					gzs.append((plan.get('gz_members', 1) if i % 2 == 0 else True) if gz else False)
 				paths = H.write_genomes(os.path.join(pd, 'base'), [W.query_contigs[q] for q in order], rel, gz=gzs)
 				labels = [H.expected_label(p) for p in rel]
